@@ -40,6 +40,11 @@ class Ob:
         self.split = split            # > 0: check the properties in this many groups, in parallel (each group is sliced separately)
 
 
+ENV_CONTRACTED = ('wv_fread', 'wv_fwrite', 'wv_fseek', 'wv_ftell', 'wv_feof', 'wv_fgetc', 'wv_ungetc', 'wv_fclose')
+# stdio functions the proof environment has no model for: CBMC's built-in models of them do not fit the ghost FILE objects
+UNMODELLED_STDIO = ('fputc', 'fputs', 'fgets', 'getc', 'putc', 'fscanf', 'fopen', 'freopen', 'setvbuf', 'fileno', 'tmpfile', 'clearerr', 'ferror', 'perror', 'fgetpos', 'fsetpos', 'ftello', 'fseeko')
+
+
 def _limits():
     resource.setrlimit(resource.RLIMIT_AS, (MEM_KB * 1024, MEM_KB * 1024))
 
@@ -214,7 +219,7 @@ def split_params(s):
     return out
 
 
-def run_ob(ob, gen_dir, work, meta):
+def _run_ob(ob, gen_dir, work, meta):
     """returns a result dict: status in {discharged, failed, undecided}, obligations, failures[], seconds, ..."""
     d = os.path.join(work, 'ob_' + ob.name)
     os.makedirs(d, exist_ok=True)
@@ -267,6 +272,10 @@ def run_ob(ob, gen_dir, work, meta):
         if f in ob.replace:
             continue
         todo += list(edges.get(f, ()))
+    # environment functions that are represented by a contract only (contracts/file.h): whenever one is reachable it is replaced by
+    # its contract, also when the obligation's own list does not name it (a change to the repository may call one it did not call before)
+    replace = list(ob.replace) + [f for f in sorted(reach) if f in ENV_CONTRACTED and f not in ob.replace and f != ob.enforce]
+    res['replace'] = replace
     drop = [f for f in meta['funcs'] if f not in reach and f != ob.enforce]
     if drop:
         a1 = os.path.join(d, 'a1.gb')
@@ -277,6 +286,30 @@ def run_ob(ob, gen_dir, work, meta):
         if rc == 0:
             a = a1
     res['sliced_away'] = len(drop)
+    # Result cache (bin/check sets CACHE): a group that was *discharged* is not solved again when everything its verdict depends on is
+    # byte-identical: the generated C text of every repository function reachable from the harness (after preprocessing and extraction,
+    # so a changed macro or in-place annotation changes it), all type / global / helper declarations, the contract, environment and
+    # specification files, the machinery, and the group's configuration.  Failed and undecided results are never stored.
+    if CACHE:
+        import hashlib
+        h = hashlib.sha256()
+        h.update(CACHE[1].encode())
+        h.update(meta.get('decl_sha256', '').encode())
+        h.update(repr(sorted((k, repr(v)) for k, v in vars(ob).items() if k != 'props')).encode())
+        for f in sorted(reach | {ob.enforce or ''}):
+            if f in meta['funcs']:
+                h.update(f.encode())
+                h.update(meta['funcs'][f].get('gen_sha', '').encode())
+        res['cache_key'] = h.hexdigest()
+        path = os.path.join(CACHE[0], res['cache_key'] + '.json')
+        if os.path.exists(path) and time.time() - os.path.getmtime(path) < 86400:
+            try:
+                r_ = json.load(open(path))
+                r_['props'] = ob.props
+                r_['cached'] = True
+                return r_
+            except Exception:
+                pass
     # loops: unwind those without a loop contract
     rc, so, se, _ = run(['goto-instrument', '--show-loops', '--json-ui', a], 120)
     loops = []
@@ -321,11 +354,11 @@ def run_ob(ob, gen_dir, work, meta):
             return res
         cur = b
     # a pure lemma harness (nothing enforced or replaced) does not reach the annotated loops of the repository's functions
-    if ob.enforce or ob.replace:
+    if ob.enforce or replace:
         cmd = ['goto-instrument', '--dfcc', ob.entry]
         if ob.enforce:
             cmd += ['--enforce-contract', ob.enforce]
-        for r in ob.replace:
+        for r in replace:
             cmd += ['--replace-call-with-contract', r]
         if contract_loops:
             cmd += ['--apply-loop-contracts']
@@ -441,6 +474,7 @@ def run_ob(ob, gen_dir, work, meta):
     n = 0
     failed = []
     unwind_fail = []
+    unmodelled = []
     unknown = ''
     for r in results:
         desc = r.get('description', '')
@@ -453,6 +487,9 @@ def run_ob(ob, gen_dir, work, meta):
                     'function': r.get('sourceLocation', {}).get('function'), 'trace': trace_inputs(r.get('trace', []))}
             if 'unwinding assertion' in desc:
                 unwind_fail.append(item)
+            elif 'undefined function should be unreachable' in desc or item['function'] in UNMODELLED_STDIO:
+                # a call of a function that has neither a body nor a contract in the proof environment decides nothing about the property
+                unmodelled.append(item)
             else:
                 failed.append(item)
         elif r['status'] not in ('SUCCESS',):
@@ -462,6 +499,11 @@ def run_ob(ob, gen_dir, work, meta):
         res['status'] = 'undecided'
         res['reason'] = 'vacuity guard: the canary after the call is not reachable (contradictory precondition or environment)'
         res['failed'] = failed
+        return res
+    if unmodelled and not failed:
+        res['status'] = 'undecided'
+        res['reason'] = 'the code reaches a function that has neither a body nor a contract in the proof environment (%s in %s): not decided' % (
+            unmodelled[0]['id'], unmodelled[0]['function'])
         return res
     if unwind_fail and not failed:
         res['status'] = 'undecided'
@@ -474,6 +516,19 @@ def run_ob(ob, gen_dir, work, meta):
         res['reason'] = unknown
         return res
     res['status'] = 'failed' if failed else 'discharged'
+    return res
+
+
+CACHE = None   # (directory, hash of the files under contracts/ env/ spec/ wv/), set by bin/check unless WV_NO_CACHE is set
+
+
+def run_ob(ob, gen_dir, work, meta):
+    res = _run_ob(ob, gen_dir, work, meta)
+    if CACHE and res.get('status') == 'discharged' and res.get('cache_key') and not res.get('cached'):
+        try:
+            json.dump(res, open(os.path.join(CACHE[0], res['cache_key'] + '.json'), 'w'))
+        except Exception:
+            pass
     return res
 
 
